@@ -1310,3 +1310,10 @@ package server
 //@   requires self != nil && command != nil && self.waofLock != nil && self.aof != nil && self.manager != nil
 //@   at call FormatAofId assert C09.sync.start-position: implies(request.AofId == "" && calls(Decode) == 0, self.waofLock.AofIndex == self.aof.aofFileIndex && self.waofLock.AofOffset == u32(self.aof.aofFileOffset + 1))
 //@   modifies all
+
+// C10/C03: on a follower, a result frame from the leader is handed to the text client only when it answers the
+// client's outstanding request: the outstanding id is cleared only by a frame that carries exactly that id
+//@ func (*TransparencyBinaryClientProtocol).processTextProcotol
+//@   requires self != nil
+//@   ensures C10.relay.match,C03.relay.match: forallref(t, TextServerProtocol, implies(t.lockRequestId != old(t.lockRequestId), istype(command, *protocol.LockResultCommand) && old(t.lockRequestId) == astype(command, *protocol.LockResultCommand).ResultCommand.RequestId))
+//@   modifies all
